@@ -108,6 +108,7 @@ def main():
         ],
         "checks": checks,
         "not_applicable": na,
+        "cross_corpus": "C01, C02, C05, C06, C09, C10, C11 and C13 - whose oracles are defined for any document - additionally run an evenly spaced subset of the documents that C03, C04, C06, C07, C08 and C14-C20 enumerate (harness/props/cross.go)",
         "notes": "All checks: `./check <ID> [quick|thorough]`; replay: `./check replay <file>`; known findings: /verif/known-findings.txt; design: /verif/DESIGN.md",
     }
     with open(os.path.join(HERE, "MANIFEST.json"), "w") as f:
